@@ -246,6 +246,7 @@ func (x *Exec) libraryModel(st *State, name string, args []Val, sig *types.Signa
 				fv := x.freshConst(st, "json", x.ctx.sortOf(l.Elem))
 				x.assumeWF(st, fv, l.Elem)
 				if mt, isMap := l.Elem.Underlying().(*types.Map); isMap {
+					x.trusted["model of encoding/json.Unmarshal: decoding into a nil map variable leaves it nil or makes a new map and changes no existing map"]++
 					// decoding into a nil map variable leaves it nil or makes a new map; decoding into
 					// a non-nil map stores into that map (any map of the type may then have changed)
 					if prev, ok := st.cells[l.Cell]; ok && prev.T != "" {
